@@ -52,7 +52,7 @@ func (c11) Runs(tier string) int {
 func (c11) New() interface{} { return &c11Case{} }
 func (c11) CrashProne() bool { return true }
 func (c11) Rule() string {
-	return "targets: bgzf, bam, sam (text: reader, record/aux/CIGAR/header parsers), bai, csi, tabix, fai, fasta (NewIndex + File.SeqRange), cram (definition, containers, blocks, Value); a valid encoding (independent encoders for BGZF/BAM/CRAM, the library's own writers for SAM text and the indexes) is stored on a simulated file, hit by 1..4 stored-state faults {bit flip, byte substitution, truncation, zeroed 512-byte sector, misdirected sector, duplicated tail} and consumed as a stream with short reads and optionally a read error, BGZF/BAM with rd>1 under tape-chosen schedules. Oracle: no panic in any goroutine, no deadlock/livelock, no fatal runtime error or 30 s stall of the worker; every value returned without error is passed to the library's accessors, formatters, writers and index builders, which must not panic either. Enumerations run before the seeded cases: 960 single structural edits of one BAM record's auxiliary area, and every 4-byte window (quick: every window of the first 200 bytes and the aligned ones up to byte 600; thorough: all) of one BAI, one CSI, one tabix image and one uncompressed BAM stream (header and records, wrapped into valid BGZF members afterwards) overwritten with each of 6 boundary values; and every column of a SAM record line (plus an appended field) replaced by each of 66 boundary spellings of numbers, names, CIGARs, sequences and aux fields. Arbitrary byte strings far from a valid encoding are NOT explored. non-trivial: the decoder read at least one faulted byte and the outcome differs from the fault-free outcome; distinct = (case, schedule signature)"
+	return "targets: bgzf, bam, sam (text: reader, record/aux/CIGAR/header parsers), bai, csi, tabix, fai, fasta (NewIndex + File.SeqRange), cram (definition, containers, blocks, Value); a valid encoding (independent encoders for BGZF/BAM/CRAM, the library's own writers for SAM text and the indexes) is stored on a simulated file, hit by 1..4 stored-state faults {bit flip, byte substitution, truncation, zeroed 512-byte sector, misdirected sector, duplicated tail} and consumed as a stream with short reads and optionally a read error, BGZF/BAM with rd>1 under tape-chosen schedules. Oracle: no panic in any goroutine, no deadlock/livelock, no fatal runtime error or 30 s stall of the worker; every value returned without error is passed to the library's accessors, formatters, writers and index builders, which must not panic either. Enumerations run before the seeded cases: 960 single structural edits of one BAM record's auxiliary area, and every 4-byte window (quick: every window of the first 200 bytes and the aligned ones up to byte 600; thorough: all) of one BAI, one CSI, one tabix and one CRAM image and one uncompressed BAM stream (header and records, wrapped into valid BGZF members afterwards) overwritten with each of 6 boundary values; and every column of a SAM record line (plus an appended field) replaced by each of 66 boundary spellings of numbers, names, CIGARs, sequences and aux fields. Arbitrary byte strings far from a valid encoding are NOT explored. non-trivial: the decoder read at least one faulted byte and the outcome differs from the fault-free outcome; distinct = (case, schedule signature)"
 }
 
 // "-inner" targets apply the faults to the payload BEFORE it is wrapped in a
@@ -122,7 +122,7 @@ func c11IdxEdits(tier string) []c11IdxEdit {
 		return l
 	}
 	l := []c11IdxEdit{}
-	for _, tg := range []string{"bai", "csi", "tabix", "bam-inner"} {
+	for _, tg := range []string{"bai", "csi", "tabix", "bam-inner", "cram"} {
 		var n int
 		switch tg {
 		case "bam-inner":
